@@ -454,17 +454,26 @@ pub struct ArrV {
     /// exact-copy provenance: the whole array is an unmodified copy of the named source (an XOF
     /// read, a generator request, an input field / byte range); cleared by every element write
     pub tag: Option<Rc<str>>,
+    /// the same for byte ranges [lo, hi) of the array (serialisers assemble their output from copies)
+    pub segs: Vec<(u64, u64, Rc<str>)>,
 }
 
 impl ArrV {
     pub fn uniform(v: Val, len: u64) -> ArrV {
-        ArrV { len, default: v, over: BTreeMap::new(), tag: None }
+        ArrV { len, default: v, over: BTreeMap::new(), tag: None, segs: Vec::new() }
+    }
+    pub fn touch(&mut self, lo: u64, hi: u64) {
+        // elements lo..=hi are (possibly) rewritten
+        self.tag = None;
+        if !self.segs.is_empty() {
+            self.segs.retain(|s| s.1 <= lo || s.0 > hi);
+        }
     }
     pub fn get(&self, i: u64) -> &Val {
         self.over.get(&i).unwrap_or(&self.default)
     }
     pub fn set(&mut self, i: u64, v: Val) {
-        self.tag = None;
+        self.touch(i, i);
         if v == self.default {
             self.over.remove(&i);
         } else {
@@ -485,7 +494,7 @@ impl ArrV {
         acc
     }
     pub fn weak_set(&mut self, lo: u64, hi: u64, v: &Val) {
-        self.tag = None;
+        self.touch(lo, hi);
         let hi = hi.min(self.len.saturating_sub(1));
         if lo > hi {
             return;
@@ -639,7 +648,7 @@ impl Val {
                 if Rc::ptr_eq(a, b) {
                     return self.clone();
                 }
-                let mut r = ArrV { len: a.len, default: a.default.join(&b.default), over: BTreeMap::new(), tag: if a.tag == b.tag { a.tag.clone() } else { None } };
+                let mut r = ArrV { len: a.len, default: a.default.join(&b.default), over: BTreeMap::new(), tag: if a.tag == b.tag { a.tag.clone() } else { None }, segs: a.segs.iter().filter(|x| b.segs.contains(x)).cloned().collect() };
                 let keys: std::collections::BTreeSet<u64> = a.over.keys().chain(b.over.keys()).cloned().collect();
                 for k in keys {
                     let v = a.get(k).join(b.get(k));
@@ -709,6 +718,9 @@ impl Val {
                 if b.tag.is_some() && a.tag != b.tag {
                     return false;
                 }
+                if !b.segs.iter().all(|x| a.segs.contains(x)) {
+                    return false;
+                }
                 if !a.default.leq(&b.default) && (a.over.len() as u64) < a.len {
                     return false;
                 }
@@ -725,7 +737,7 @@ impl Val {
             (Val::Int(a), Val::Int(b)) => Val::Int(a.widen(b)),
             (Val::Tuple(a), Val::Tuple(b)) if a.len() == b.len() => Val::Tuple(Rc::new(a.iter().zip(b.iter()).map(|(x, y)| x.widen(y)).collect())),
             (Val::Arr(a), Val::Arr(b)) if a.len == b.len => {
-                let mut r = ArrV { len: a.len, default: a.default.widen(&b.default), over: BTreeMap::new(), tag: if a.tag == b.tag { a.tag.clone() } else { None } };
+                let mut r = ArrV { len: a.len, default: a.default.widen(&b.default), over: BTreeMap::new(), tag: if a.tag == b.tag { a.tag.clone() } else { None }, segs: a.segs.iter().filter(|x| b.segs.contains(x)).cloned().collect() };
                 let keys: std::collections::BTreeSet<u64> = a.over.keys().chain(b.over.keys()).cloned().collect();
                 for k in keys {
                     let v = a.get(k).widen(b.get(k));
@@ -797,6 +809,7 @@ impl Val {
             Val::Arr(a) => {
                 let mut r = (**a).clone();
                 r.tag = None;
+                r.segs.clear();
                 r.default = r.default.strip_tags();
                 for v in r.over.values_mut() {
                     *v = v.strip_tags();
